@@ -148,6 +148,38 @@ pub fn c10() -> i32 {
             s.extend(scenarios("c10-split-L2", "1+1+1", &[2, 8], &[0], &[false], 4..7, 2, (100, 300), 2));
             s
         };
+        // the same splits with a slow link between the survivors: they still owe each other
+        // corrections around the cut-off when the drop is registered
+        let mut scns = scns;
+        let slow: Vec<Scenario> = scenarios("c10-split-slow-survivor-link", "1+1+1", if t { &[2, 3, 8] } else { &[3, 8] }, &[0], &[false, true], if t { 3..12 } else { 5..9 }, if t { 2 } else { 1 }, (100, 300), 1)
+            .into_iter()
+            .flat_map(|s| {
+                [3, 5].into_iter().map(move |l| {
+                    let mut x = s.clone();
+                    let (a, b) = (x.peers[0].addr, x.peers[1].addr);
+                    x.link_lat = vec![(a, b, l), (b, a, l)];
+                    x.name = format!("{} survivor-link-latency={l}", x.name);
+                    x
+                })
+            })
+            .collect();
+        scns.extend(slow);
+        // no stall before the drop is registered: window larger than the timeout, asymmetric
+        // slow link between the survivors (one still owes the other corrections around the
+        // cut-off when Disconnected is raised)
+        let fast: Vec<Scenario> = scenarios("c10-split-no-stall", "1+1+1", if t { &[8, 12] } else { &[12] }, &[0], &[false, true], if t { 22..34 } else { 24..28 }, 1, (50, 100), 1)
+            .into_iter()
+            .flat_map(|s| {
+                [(1, 8), (8, 1), (3, 9)].into_iter().map(move |(lab, lba)| {
+                    let mut x = s.clone();
+                    let (a, b) = (x.peers[0].addr, x.peers[1].addr);
+                    x.link_lat = vec![(a, b, lab), (b, a, lba)];
+                    x.name = format!("{} survivor-link-latency a->b={lab} b->a={lba}", x.name);
+                    x
+                })
+            })
+            .collect();
+        scns.extend(fast);
         let n = scns.len();
         let cfg = ExploreCfg { k: Some(0), wall: Duration::from_secs(if t { 1800 } else { 40 }), ..Default::default() };
         let out = explore(&scns, &cfg, &judge);
